@@ -1042,7 +1042,9 @@ struct RealRunner
         // a zero-progress bump moves the point without telling the navigator: do not continue a
         // sequence from such a state (the follow-on calls would start from an unverified volume)
         bool const bumped = !result.boundary && !result.looping && result.distance < s.step;
-        return !out1 && !bumped;
+        // likewise never continue from a state whose tracked volume a fresh location contradicts
+        bool const inconsistent = !result.boundary && volf != vol1;
+        return !out1 && !bumped && !inconsistent;
     }
 };
 
@@ -1070,6 +1072,7 @@ int run_real(std::string const& out_path, int argc, char** argv)
           "test/orange/data/testem3.org.json,test/orange/data/inputbuilder-hierarchy.org.json";
     long budget = 200000;
     bool directed = true;
+    std::string cases_path;
     for (int i = 3; i < argc; ++i)
     {
         std::string a = argv[i];
@@ -1089,6 +1092,8 @@ int run_real(std::string const& out_path, int argc, char** argv)
             budget = std::stol(v);
         else if (k == "directed")
             directed = v != "0";
+        else if (k == "cases")
+            cases_path = v;
     }
     verif::NdjsonWriter out(out_path);
     g_out = &out;
@@ -1189,6 +1194,89 @@ int run_real(std::string const& out_path, int argc, char** argv)
                 }
             }
         }
+    }
+
+    // ---- explicit cases from a file (replay of reported inputs): one JSON object per line
+    //  {"geo": index or name part, "pos": [..], "dir": [..], "cross": bool (move to the next boundary
+    //   along dir and cross it first), "dir2": [..] (direction set after crossing), "positron": bool,
+    //   "energy": MeV, "field": [Bx,By,Bz] tesla, "fieldtype": 0|1|2, "stepper": 0|1|2, "step": cm,
+    //   "opts": {minimum_step, delta_chord, delta_intersection, max_substeps, epsilon_rel_max}}
+    auto run_case = [&](std::string const& line) {
+        {
+            json j = json::parse(line);
+            Sample s;
+            s.geo = 0;
+            if (j.contains("geo"))
+            {
+                std::string want = j["geo"].get<std::string>();
+                for (std::size_t i = 0; i < rr.geos.size(); ++i)
+                    if (rr.geos[i]->name.find(want) != std::string::npos)
+                        s.geo = static_cast<int>(i);
+            }
+            auto vec = [&](char const* k) {
+                Real3 v{0, 0, 0};
+                for (int i = 0; i < 3; ++i)
+                    v[i] = j.at(k).at(i).get<double>();
+                return v;
+            };
+            s.positron = j.value("positron", false);
+            s.energy = j.value("energy", 1.0);
+            s.field.type = j.value("fieldtype", 0);
+            s.field.b_tesla = vec("field");
+            s.stepper = j.value("stepper", 0);
+            s.step = j.value("step", 1.0);
+            if (j.contains("opts"))
+            {
+                auto const& o = j["opts"];
+                s.opts.minimum_step = o.value("minimum_step", s.opts.minimum_step);
+                s.opts.delta_chord = o.value("delta_chord", s.opts.delta_chord);
+                s.opts.delta_intersection = o.value("delta_intersection", s.opts.delta_intersection);
+                s.opts.max_substeps = static_cast<short>(o.value("max_substeps", int(s.opts.max_substeps)));
+                s.opts.epsilon_rel_max = o.value("epsilon_rel_max", s.opts.epsilon_rel_max);
+            }
+            s.tag = "case:" + j.value("tag", std::string(""));
+            try
+            {
+                OrangeTrackView& geo = *rr.geos[s.geo]->view;
+                geo = GeoTrackInitializer{vec("pos"), unit3(vec("dir"))};
+                std::string kind = "interior";
+                if (j.value("cross", false))
+                {
+                    geo.find_next_step();
+                    geo.move_to_boundary();
+                    geo.cross_boundary();
+                    kind = "boundary";
+                }
+                if (j.contains("dir2"))
+                {
+                    geo.set_dir(unit3(vec("dir2")));
+                    kind = "tangent";
+                }
+                rr.propagate_once(s, kind);
+            }
+            catch (std::exception const& ex)
+            {
+                out({{"e", "Info"}, {"what", std::string("case failed to start: ") + clean(ex.what())}});
+            }
+        }
+    };
+    if (directed)
+    {
+        // near-tangent start on a boundary with the field bending the track back through it,
+        // non-default (valid) driver options: finding F-FIELD-3
+        run_case(R"({"geo":"field-layers","pos":[-2.0373360902870123,-4.6,-5.3647854036796954],"dir":[0,1,0],"cross":true,
+ "dir2":[-0.41147573926553804,1.5396779770717857e-09,-0.91142071295087379],"positron":false,"energy":25.144611585570882,
+ "field":[-0.22577030647027949,0.36571352331286833,-0.35195297480732179],"fieldtype":0,"stepper":1,"step":0.097136967629794929,
+ "opts":{"minimum_step":2.1604498769836856e-07,"delta_chord":0.054968308343820799,"delta_intersection":2.9731611968176892e-06,
+ "max_substeps":3,"epsilon_rel_max":1e-3},"tag":"tangent-reentrant-tunnel"})");
+    }
+    if (!cases_path.empty())
+    {
+        std::ifstream cf(cases_path);
+        std::string line;
+        while (std::getline(cf, line))
+            if (!line.empty())
+                run_case(line);
     }
 
     Rng rng(seed);
